@@ -1,0 +1,8 @@
+//go:build verif
+
+package lockedfile
+
+import "github.com/rogpeppe/go-internal/internal/verifhook"
+
+// VerifSetHook installs the perturbation hook (see internal/verifhook).
+func VerifSetHook(f func(point string)) { verifhook.Set(f) }
